@@ -10,12 +10,12 @@ import sympy as sp
 from vcheck import cfront, csymx, rules
 from vcheck.core import PyRepo, AnalysisError, call_name, const_value, kwarg, norm, walk_no_nested
 from vcheck.cfront import callee_name, render, strip, walk
-from checks.C12 import guard_facts, array_read, node_defs, ref_desc, ref_desc_in, cfg_succ, _norm_f8, _size_checks, per_point_values_rule
+from checks.C12 import guard_facts, array_read, node_defs, ref_desc, ref_desc_in, cfg_succ, _norm_f8, _size_checks, per_point_values_rule, LowerH, unstrided_reads, f8_atoms
 
 MANIFEST = dict(
     text="Narrow structural claim over the clang AST of htmc.cc and the Python ast of htm.py (the geometric clauses are NOT decided): "
          "(1) id lookup: element i of the output is lookupID(ra[i], dec[i]) of the tree built at the object's depth, for all i, through one "
-         "code path for scalars and arrays (inputs become fresh float64 1-d arrays, output int64 of the same size); (2) circle lists: the "
+         "code path for scalars and arrays (inputs are native float64 ndarrays with >= 1 dimension wherever they reach the extension - new contiguous arrays if the C++ side walks the bare data pointer instead of the strides -, output int64 of the same size); (2) circle lists: the "
          "cap is cos(radius*pi/180) about (ra, dec), the result holds the fully-inside list and, exactly when inclusive, the partial list, "
          "each completely and in order; (3) pair counting: per-point scale read with the point's index (element 0 for a scalar scale) and, with its logarithm, "
          "never used inside the loop before its assignment of the same iteration (no point is searched with its predecessor's scale), "
@@ -38,7 +38,7 @@ SRC = "esutil/htm/htmc.cc"
 
 # rules that keep their verdict however the code is laid out (decided by term equality, effect analysis or dominance over
 # resolved calls); every other rule of this check is a template rule (vcheck.core.Check.obt)
-SEMANTIC = ('R13.2::HTM.intersect::flag-mapping', 'R13.3::cbincount::lower-edge-guard-on-untruncated-value', 'R13.3::cbincount::upper-bin-guard', 'R13.3::cbincount::per-point-value', 'R13.4', 'R13.5', 'R13.6')
+SEMANTIC = ('R13.1::lookup_id::ra-read-through', 'R13.1::lookup_id::dec-read-through', 'R13.2::HTM.intersect::flag-mapping', 'R13.3::cbincount::lower-edge-guard-on-untruncated-value', 'R13.3::cbincount::upper-bin-guard', 'R13.3::cbincount::per-point-value', 'R13.4', 'R13.5', 'R13.6')
 
 
 def run(chk):
@@ -47,17 +47,17 @@ def run(chk):
     chk.explanation = MANIFEST["text"]
     chk.trusted = ["clang 14 AST", "SWIG naming convention", "CPython ast"]
     chk.floor = 40
-    fs = cfront.functions(cfront.load_tu("htmc"))
+    decls = cfront.load_tu("htmc")
+    fs = cfront.functions(decls)
     from checks import C12 as _c12
-    _c12.HELPERS.clear()
-    _c12.HELPERS.update({k: v for k, v in fs.items() if "::" not in k})
+    _c12.set_tu(decls, fs)
     for nm in ("HTMC::lookup_id", "HTMC::intersect", "HTMC::cbincount", "HTMC::init", "gcirc"):
         if nm not in fs:
             raise AnalysisError("C++ anchor %s not found" % nm)
         chk.analysed_unit("htmc.cc:" + nm)
     lookup(chk, repo, fs)
     intersect(chk, repo, fs)
-    bincount_c(chk, fs["HTMC::cbincount"])
+    bincount_c(chk, fs["HTMC::cbincount"], fs)
     bincount_py(chk, repo, fs["HTMC::cbincount"])
     id_width(chk)
     # circle lists: a stored node wholly inside the circle hands over all and only its leaf descendants, by HTM id (shared with C12)
@@ -155,6 +155,7 @@ def lookup(chk, repo, fs):
            "the tree is built at the requested depth")
     fi = repo.func(H + "HTM.lookup_id")
     chk.analysed_unit(fi.qualname)
+    stride_rule(chk, "R13.1", "lookup_id", f, fi, {p_ra: "ra", p_dec: "dec"})
     for n, ok in _norm_f8(fi, ["ra", "dec"]).items():
         chk.ob("R13.1", "HTM.lookup_id::%s-becomes-fresh-float64-1d" % n, ok, fi.where(), "scalars and arrays take the same path: `%s = np.atleast_1d(%s).astype('f8')`" % (n, n))
     chk.ob("R13.1", "HTM.lookup_id::size-check", "ra.size != dec.size" in _size_checks(fi), fi.where(), "unequal coordinate arrays are rejected")
@@ -166,6 +167,43 @@ def lookup(chk, repo, fs):
     rets = [x for x in walk_no_nested(fi.node) if isinstance(x, ast.Return)]
     ok = ok and len(rets) == 1 and norm(rets[0].value) == outn
     chk.ob("R13.1", "HTM.lookup_id::output-int64-same-size", bool(ok), fi.where(), "the output is a new int64 array of ra.size handed to the extension as (ra, dec, out) and returned")
+
+
+def cos_factor(decl, rhs, var):
+    """k when the expression lowers to cos(k * var) with a number k (helpers and constants of the file folded in), else None"""
+    try:
+        L = LowerH(decl)
+        L.env = {}
+        t = L.expr(rhs)
+    except (AnalysisError, TypeError, ValueError, KeyError):
+        return None
+    if not isinstance(t, sp.cos):
+        return None
+    q = sp.simplify(t.args[0] / sp.Symbol(var))
+    if q.free_symbols:
+        return None
+    try:
+        return float(q)
+    except (TypeError, ValueError):
+        return None
+
+
+def stride_rule(chk, rule, fname, f, fi, names):
+    """both halves together: an input array whose elements the C++ function reaches through the bare data pointer (p = PyArray_DATA(a); p[i])
+    has to be handed over by the python wrapper as a new, hence contiguous, array on every path; an array read through its strides
+    (PyArray_GETPTR1) may have any layout.  names: C++ parameter -> python argument name"""
+    bare = unstrided_reads(f.decl)
+    at = f8_atoms(fi, list(names.values()))
+    for cpar, pyname in names.items():
+        if ("param", cpar) in bare:
+            seen, nsink = at[pyname]
+            ok = None if not nsink else (True if seen <= {"F8+"} else (False if seen & {"F8", "ARR", "RAW", "BAD"} else None))
+        else:
+            ok = True
+        chk.ob(rule, "%s::%s-read-through-strides-or-contiguous" % (fname, pyname), ok, f.where,
+               "the elements of `%s` are read by the C++ side through the array's strides (PyArray_GETPTR1)%s"
+               % (pyname, "" if ("param", cpar) not in bare else " -- they are read through the bare data pointer, which is right only for a contiguous array: the python wrapper "
+                  "has to hand over a new array on every path (it may hand over: %s)" % sorted(at[pyname][0])))
 
 
 def _truth_of(var, tests):
@@ -191,13 +229,11 @@ def intersect(chk, repo, fs):
         a = [render(z) for z in cfront.call_args(sets[0][1])]
         dd = f.defs_at(sets[0][0], a[2])
         okd = False
-        if len(dd) == 1 and callee_name(strip(dd[0][1])) == "cos":
-            arg = strip(cfront.call_args(strip(dd[0][1]))[0])
-            if arg.get("kind") == "BinaryOperator" and arg.get("opcode") == "*" and render(arg["inner"][0]) == p_rad:
-                try:
-                    okd = abs(float(csymx.Lower(f.decl).expr(arg["inner"][1]).evalf()) - math.pi / 180) < 1e-15
-                except Exception:
-                    okd = False
+        if len(dd) == 1:
+            # as a term: cos(k * radius) with k = pi/180, the factor written in place, as a macro, a file-level constant or through a
+            # conversion helper of this file (deg2rad(radius))
+            k = cos_factor(f.decl, dd[0][1], p_rad)
+            okd = k is not None and abs(k - math.pi / 180) < 1e-15
         ok = a[:2] == [p_ra, p_dec] and okd
     chk.ob("R13.2", "intersect::cap", bool(ok), f.where, "the cap is setRaDecD(ra, dec, cos(radius*pi/180))")
     inter = [(n, x) for n in f.cfg.nodes if isinstance(n.c, dict) for x in walk(n.c) if x.get("kind") == "CXXMemberCallExpr" and callee_name(x) == "intersect"]
@@ -253,7 +289,7 @@ def intersect(chk, repo, fs):
 
 
 # ---------------------------------------------------------------------------
-def bincount_c(chk, decl):
+def bincount_c(chk, decl, fs=None):
     f = Fn(decl)
     P = f.params
     if len(P) != 11:
@@ -270,14 +306,26 @@ def bincount_c(chk, decl):
             if c.get("kind") == "CompoundAssignOperator" and c.get("opcode") == "+=":
                 l = strip(c["inner"][0])
                 if l.get("kind") == "UnaryOperator" and l.get("opcode") == "*":
-                    incs.append((n, render(l["inner"][0]), render(c["inner"][1])))
+                    incs.append((n, render(l["inner"][0]), render(c["inner"][1]), None))
+                elif l.get("kind") == "ArraySubscriptExpr" and strip(l["inner"][0]).get("kind") == "DeclRefExpr":
+                    # `cells[bin] += 1` through the data pointer of an array
+                    incs.append((n, render(strip(l["inner"][0])), render(c["inner"][1]), render(strip(l["inner"][1]))))
     ok = len(incs) == 1 and incs[0][2] == "1"
     chk.ob("R13.3", "cbincount::one-count-site", ok, f.where, "one `*cell += 1` counts a pair")
     if not ok:
         return
-    cn, cptr, _ = incs[0]
+    cn, cptr, _, csub = incs[0]
     cdef = f.defs_at(cn, cptr)
-    ar = array_read(cdef[0][1]) if len(cdef) == 1 else None
+    if csub is None:
+        ar = array_read(cdef[0][1]) if len(cdef) == 1 else None
+    else:
+        # cells = PyArray_DATA(array): element `bin` of that array (valid for the contiguous array the function has just allocated, which
+        # the next rule instance demands)
+        ar = None
+        if len(cdef) == 1:
+            dcall = [x for x in walk(cdef[0][1]) if x.get("kind") == "CallExpr" and callee_name(x) in ("PyArray_DATA", "PyArray_BYTES")]
+            if len(dcall) == 1:
+                ar = (ref_desc(cfront.call_args(dcall[0])[0]), csub)
     binvar = ar[1] if ar else None
     outs = [v for n in cfg.nodes for v, rhs in node_defs(n) if "PyArray_API[183]" in render(rhs) and "NPY_LONG" in render(rhs)]
     chk.ob("R13.3", "cbincount::count-cell-is-bin-of-output", ar is not None and ar[0][1] in outs, f.w(cn), "the cell is counts[bin] of the int64 output array")
@@ -343,10 +391,20 @@ def bincount_c(chk, decl):
            "log_binsize = (log10 rmax - log10 rmin)/nbin")
     chk.ob("R13.3", "cbincount::log-limits", st.get("logrmin") == sp.log(S(p_rmin), 10) and st.get("logrmax") == sp.log(S(p_rmax), 10), f.where, "logrmin/logrmax are log10 of the arguments")
     # the distance filter and the distance
-    filt = [(t, lab) for t, lab in tests if "<=" in t and lab == "T" and "dis" in t]
-    ok = len(filt) == 1
-    mv = filt[0][0].strip("()").split(" <= ")[1] if ok else None
-    chk.ob("R13.3", "cbincount::distance-filter", ok, f.w(cn), "counted only when dis <= %s" % mv)
+    # read off the facts that hold at the count: `dis <= m` (an enclosing if), or `!(m < dis)` (a guard clause `if (dis > m) continue;`) - the
+    # latter differs from the former only for a NaN separation, which the lower-edge guard on the un-truncated logarithm (above) rejects
+    import re as _re
+    cands = []
+    for ft in sorted(facts):
+        mt = _re.match(r"^dis<=([A-Za-z_]\w*)$", ft)
+        if mt:
+            cands.append(mt.group(1))
+        mt = _re.match(r"^!\(([A-Za-z_]\w*)<dis\)$", ft)
+        if mt and low:
+            cands.append(mt.group(1))
+    ok = len(cands) == 1
+    mv = cands[0] if ok else None
+    chk.ob("R13.3", "cbincount::distance-filter", ok, f.w(cn), "counted only when dis <= %s (facts that hold at the count: %s)" % (mv, sorted(facts)))
     dd = f.defs_at(cn, "dis")
     okd = len(dd) == 1 and callee_name(strip(dd[0][1])) == "gcirc"
     if okd:
@@ -371,12 +429,21 @@ def bincount_c(chk, decl):
         ar2 = array_read(i2d[0][1]) if len(i2d) == 1 else None
         okr = ar2 is not None and ar2[0] == ("param", p_rev)
         idxv = ar2[1] if okr else None
-        idd = f.defs_at(i2d[0][0], idxv) if okr else []
-        okr = okr and len(idd) == 1
         lo = hi = None
-        if okr:
-            e = strip(idd[0][1])
-            okr = e.get("kind") == "BinaryOperator" and e.get("opcode") == "+"
+        lpn = f.loops_over(i2d[0][0]) if okr else []
+        if okr and lpn and isinstance(lpn[0].c, dict) and lpn[0].c.get("kind") == "BinaryOperator" and lpn[0].c.get("opcode") == "<" \
+                and render(lpn[0].c["inner"][0]) == idxv:
+            # the slot itself is the loop variable: for (s = lo; s < hi; s++) member = rev[s]
+            inits = [r for d, r in f.defs_at(lpn[0], idxv) if d.label != "inc"]
+            incs_ = [d for d in cfg.nodes if d.label == "inc" and render(d.c) in (idxv + "++", "++" + idxv)]
+            okr = len(inits) == 1 and strip(inits[0]).get("kind") == "DeclRefExpr" and len(incs_) == 1 and strip(lpn[0].c["inner"][1]).get("kind") == "DeclRefExpr"
+            if okr:
+                lo, hi = render(strip(inits[0])), render(strip(lpn[0].c["inner"][1]))
+        elif okr:
+            idd = f.defs_at(i2d[0][0], idxv)
+            okr = len(idd) == 1
+            e = strip(idd[0][1]) if okr else {}
+            okr = okr and e.get("kind") == "BinaryOperator" and e.get("opcode") == "+"
             if okr:
                 lo, il = render(e["inner"][0]), render(e["inner"][1])
                 lpn = f.loops_over(i2d[0][0])
@@ -395,8 +462,13 @@ def bincount_c(chk, decl):
             okk = len(kd) == 1 and strip(kd[0][1]).get("opcode") == "-" and render(strip(kd[0][1])["inner"][1]) == "minid"
             leaf = render(strip(kd[0][1])["inner"][0]) if okk else None
             chk.ob("R13.3", "cbincount::leaf-bin-is-id-minus-minid", bool(okk), f.where, "leaf bin k = triangle id - minid")
-            rng = [t for t, lab in f.tests_over(lod[0][0]) if lab == "T" and "minid" in t and "maxid" in t]
-            chk.ob("R13.3", "cbincount::leaf-id-range-check", bool(rng) and ">= minid" in rng[0] and "<= maxid" in rng[0], f.where, "only triangle ids in [minid, maxid] index the reverse indices (%s)" % rng)
+            lfacts = guard_facts(view, lod[0][0])
+            okrng = leaf is not None and ("minid<=%s" % leaf) in lfacts and ("%s<=maxid" % leaf) in lfacts
+            if not okrng and leaf is not None:
+                # the id may be held in a second local (leafid = idlist[j]; leafbin = idlist[j] - minid): same defining expression
+                ldefs = {v for m_ in cfg.nodes for v, r_ in node_defs(m_) if render(strip(r_)) == leaf}
+                okrng = any(("minid<=%s" % v) in lfacts and ("%s<=maxid" % v) in lfacts for v in ldefs)
+            chk.ob("R13.3", "cbincount::leaf-id-range-check", bool(okrng), f.where, "only triangle ids in [minid, maxid] index the reverse indices (facts that hold there: %s)" % sorted(lfacts))
         chk.ob("R13.3", "cbincount::members-from-reverse-indices", bool(okr), f.where, "members of leaf k are rev[rev[k] + 0 .. rev[k+1] - 1] (the histogram's reverse-index convention)")
     else:
         chk.ob("R13.3", "cbincount::distance-is-gcirc", False, f.where, "`dis` is not a single gcirc(...) definition")
@@ -411,17 +483,29 @@ def bincount_c(chk, decl):
         forms = []
         for dn, rhs in ddv:
             r = strip(rhs)
-            if callee_name(r) == "cos":
-                arg = strip(cfront.call_args(r)[0])
+            dsym = sp.Symbol(degarg)
+            try:
+                LL = LowerH(decl)
+                LL.env = {}
+                tt = LL.expr(rhs)
+            except (AnalysisError, TypeError, ValueError, KeyError):
+                tt = None
+            if tt is not None and dsym in tt.free_symbols and mv:
+                # one expression that switches on the unit flag itself (a conditional, or a helper of the file given the flag)
+                for tag, val, lab in (("deg", 1, "T"), ("rad", 0, "F")):
+                    tv = tt.subs(dsym, val)
+                    tv = sp.piecewise_fold(tv) if isinstance(tv, sp.Piecewise) else tv
+                    q = sp.simplify(tv.args[0] / sp.Symbol(mv)) if isinstance(tv, sp.cos) else None
+                    if q is not None and not q.free_symbols:
+                        kq = float(q)
+                        forms.append((tag, abs(kq - (math.pi / 180 if tag == "deg" else 1.0)) < 1e-15, [lab]))
+            elif callee_name(r) == "cos":
                 ts = f.tests_over(dn)
-                if arg.get("kind") == "BinaryOperator" and arg.get("opcode") == "*" and render(arg["inner"][0]) == mv:
-                    try:
-                        val = float(csymx.Lower(decl).expr(arg["inner"][1]).evalf())
-                    except Exception:
-                        val = None
-                    forms.append(("deg", val is not None and abs(val - math.pi / 180) < 1e-15, [lab for t, lab in ts if t.strip("()") == degarg]))
-                elif render(arg) == mv:
+                k = cos_factor(decl, rhs, mv) if mv else None
+                if k is not None and abs(k - 1.0) < 1e-15:
                     forms.append(("rad", True, [lab for t, lab in ts if t.strip("()") == degarg]))
+                elif k is not None:
+                    forms.append(("deg", abs(k - math.pi / 180) < 1e-15, [lab for t, lab in ts if t.strip("()") == degarg]))
         ok = ok and sorted(forms) == [("deg", True, ["T"]), ("rad", True, ["F"])]
         chk.ob("R13.3", "cbincount::cap-is-cos-of-maxangle-in-matching-units", bool(ok), f.w(sets[0][0]),
                "cap = cos(maxangle*pi/180) when in degrees, cos(maxangle) when in radians, about the same first-set point (%s)" % forms)
@@ -455,7 +539,22 @@ def bincount_c(chk, decl):
                 if "(%s () " % Ls in t and "=" in t:
                     lpn = f.loops_over(n)
                     copied[Ls] = bool(lpn) and ("%s.length()" % Ls) in render(lpn[0].c)
-    chk.ob("R13.3", "cbincount::full-and-partial-triangles-are-candidates", len(lists) == 2 and all(copied.get(Ls) for Ls in lists), f.where, "both triangle lists are searched (%s)" % copied)
+    okl = len(lists) == 2 and all(copied.get(Ls) for Ls in lists)
+    if not okl and len(lists) == 2:
+        # the copy may be made by a free helper of the file that is handed the lists, or append with push_back: every element of both
+        # lists has to arrive in one container
+        from checks import C12 as _c12
+        cps_ = _c12.list_copies(fs or {}, decl, lists)
+        common = set.intersection(*[cps_.get(Ls, set()) for Ls in lists])
+        if common:
+            okl = True
+            copied = {Ls: sorted(cps_[Ls]) for Ls in lists}
+            cand = sorted(common)[0]
+            lp_, _i1 = _outer_loop(f, p_ra1)
+            body = _c12.loop_body(cfg, view, lp_)
+            if cand not in _c12._declared_in(cfg, body) and not _c12.container_cleared(fs or {}, body, cand):
+                okl = None          # a list that outlives the iteration and is not emptied for every point: not judged here
+    chk.ob("R13.3", "cbincount::full-and-partial-triangles-are-candidates", okl, f.where, "both triangle lists are searched (%s)" % copied)
 
 
 def _outer_loop(f, p_ra):
@@ -472,6 +571,9 @@ def _outer_loop(f, p_ra):
 def bincount_py(chk, repo, cdecl):
     fi = repo.func(H + "HTM.bincount")
     chk.analysed_unit(fi.qualname)
+    cps0 = cfront.params_of(cdecl)
+    if len(cps0) == 11:
+        stride_rule(chk, "R13.4", "cbincount", Fn(cdecl), fi, {cps0[3]: "ra1", cps0[4]: "dec1", cps0[5]: "ra2", cps0[6]: "dec2"})
     for n, ok in _norm_f8(fi, ["ra1", "dec1", "ra2", "dec2"]).items():
         chk.ob("R13.4", "HTM.bincount::%s-becomes-fresh-float64-1d" % n, ok, fi.where(), "`%s = np.atleast_1d(%s).astype('f8')`" % (n, n))
     rc = rules.raise_condition(fi)
@@ -483,14 +585,21 @@ def bincount_py(chk, repo, cdecl):
     want = ["rmin", "rmax", "nbin", "ra1", "dec1", "ra2", "dec2", "htmrev2", None, "scale", None]
     ok = len(call) == 1 and len(call[0].args) == len(cps) == 11 and all(w is None or norm(a) == w for a, w in zip(call[0].args, want))
     chk.ob("R13.4", "HTM.bincount::extension-call-roles", ok, fi.where(), "the extension receives the arguments in the C++ parameter order %s" % cps)
-    mm = norm(call[0].args[8]) if ok else None
-    md = [x for x in walk_no_nested(fi.node) if isinstance(x, ast.Assign) and norm(x.targets[0]) == mm]
-    ok = len(md) == 1 and norm(md[0].value).replace('"', "'") in ("np.array([minid, maxid], dtype='i8')", "numpy.array([minid, maxid], dtype='i8')")
-    chk.ob("R13.4", "HTM.bincount::minmax-array", ok, fi.where(), "the id range is handed over as int64 [minid, maxid]")
+    # the id range: the 9th argument of the extension call, written in place or held in a local, is np.array([minid, maxid], dtype=int64)
+    mmx = rules.expand(call[0].args[8], fi.node) if ok else None
+    okm = None
+    if mmx is not None:
+        okm = isinstance(mmx, ast.Call) and call_name(mmx) in ("array", "asarray") and len(mmx.args) == 1 and isinstance(mmx.args[0], (ast.List, ast.Tuple)) \
+            and [norm(e) for e in mmx.args[0].elts] == ["minid", "maxid"] \
+            and (const_value(kwarg(mmx, "dtype")) in ("i8", "int64") or norm(kwarg(mmx, "dtype")) in ("np.int64", "numpy.int64") if kwarg(mmx, "dtype") is not None else False)
+    chk.ob("R13.4", "HTM.bincount::minmax-array", okm, fi.where(), "the id range is handed over as int64 [minid, maxid] (%s)" % (norm(mmx) if mmx is not None else "extension call not recognised"))
     # reverse indices: histogram of (id - minid) anchored at 0 with unit bins
     hs = [x for x in walk_no_nested(fi.node) if isinstance(x, ast.Call) and call_name(x) == "histogram"]
-    ok = len(hs) == 1 and norm(hs[0].args[0]).replace(" ", "") == "htmid2-minid" and const_value(kwarg(hs[0], "rev")) is True
-    chk.ob("R13.4", "HTM.bincount::reverse-indices-from-id-minus-minid", ok, fi.where(), "reverse indices come from histogram(htmid2 - minid, rev=True)")
+    ok = len(hs) == 1 and bool(hs[0].args) and norm(hs[0].args[0]).replace(" ", "") == "htmid2-minid" and const_value(kwarg(hs[0], "rev")) is True
+    # a locator first: when the reverse indices are not built by the histogram code in this method (a purpose-written builder), the layout
+    # rev[rev[k] .. rev[k+1]) of that builder is not derived here: no verdict rather than a contradiction
+    chk.ob("R13.4", "HTM.bincount::reverse-indices-from-id-minus-minid", ok if hs else None, fi.where(),
+           "reverse indices come from histogram(htmid2 - minid, rev=True)%s" % ("" if hs else " -- no call of the histogram code in this method: the reverse indices are built some other way, which is not followed"))
     if ok:
         h = hs[0]
         mn = kwarg(h, "min")
